@@ -518,6 +518,23 @@ func vRTFilter(name string, idx int, ops []string) rule.FilterSpec {
 func VH_RoundTrip() {
 	var r rule.Rule
 	shape := vParam("shape", 0)
+	if vParam("prebuild", 0) != 0 {
+		// the encoder and the printer have been used before, on rules that leave as much behind as a
+		// rule can: another architecture, named syscalls, strings, keys, a comparison
+		for _, pr := range []rule.Rule{
+			&rule.SyscallRule{Type: rule.AppendSyscallRuleType, List: "exit", Action: "never", Syscalls: []string{"open", "stat"},
+				Filters: []rule.FilterSpec{{Type: rule.ValueFilterType, LHS: "arch", Comparator: "=", RHS: "b32"}, {Type: rule.ValueFilterType, LHS: "exe", Comparator: "!=", RHS: "/bin/zz"},
+					{Type: rule.InterFieldFilterType, LHS: "uid", Comparator: "!=", RHS: "euid"}}, Keys: []string{"k1", "k2"}},
+			&rule.FileWatchRule{Type: rule.FileWatchRuleType, Path: "/etc/passwd", Permissions: []rule.AccessType{rule.WriteAccessType, rule.AttributeChangeAccessType}, Keys: []string{"wk"}},
+			&rule.SyscallRule{Type: rule.AppendSyscallRuleType, List: "nosuchlist", Action: "always"},
+		} {
+			if w, err := rule.Build(pr); err == nil {
+				if t, err := rule.ToCommandLine(w, false); err == nil {
+					Parse(t)
+				}
+			}
+		}
+	}
 	allOps := []string{"=", "!=", "<", ">", "<=", ">=", "&", "&="}
 	eqOps := []string{"=", "!="}
 	switch shape {
